@@ -11,6 +11,7 @@ operand sweeps), fxy (F/X/Y packing sweep), corpus (re-encode decoded corpus val
 """
 from mc.checks import c01
 from mc.checks import codec_common as CC
+from mc.engine import tree
 from mc.engine.harness import Partial, Report, merge_all
 from mc.engine.pool import run_shards, split
 from mc.gen import corpus
@@ -108,6 +109,65 @@ def run_fxy(cases):
     return p
 
 
+def bitmap_encode_body(struct, env):
+    """bitmap structures (mc.gen.bitmaps): the encoder is given the reference values -- per-subset bitmaps and counts when
+    uncompressed -- and must produce the independently built message (markers take width / scale / reference of the
+    element the subset's OWN bitmap designates)"""
+    name, descs, queues, free = struct
+    nsub, comp = env['nsub'], env['compressed']
+    vmap = env.get('vmap') or [0] * nsub
+
+    def body(ctx):
+        try:
+            b, spec, subs, notes = S.build_distinct_message(ctx, descs, nsub=nsub, compressed=comp, queues=queues, free=free,
+                                                            variant_of_subset=vmap)
+        except codec.RefError as e:
+            return {'outcome': ('ref-error',), 'skip': 'ref'}
+        if notes:
+            return {'outcome': ('envelope',), 'skip': 'envelope'}
+        port = codec.encode.last_port
+        fj = message.flat_json(spec, CC.impl_input_values(subs, port, comp))
+        import contextlib, io
+        with contextlib.redirect_stderr(io.StringIO()):
+            try:
+                msg = CC.encoder().process(fj, wire_template_data=False)
+            except Exception as e:
+                return {'outcome': ('exc', type(e).__name__), 'bytes': b,
+                        'viol': ('encode-raises:' + type(e).__name__, 'encoding raised %s: %s' % (type(e).__name__, str(e)[:200]))}
+        got = msg.serialized_bytes
+        res = {'outcome': (name.split('|')[0], len(subs[0].links), comp, nsub), 'bytes': b}
+        if not comp:
+            if got != b:
+                res['viol'] = ('bytes', 'encoded %s, independently built %s' % (got.hex(), b.hex()))
+        else:
+            d = CC.judge_compressed(got, spec, subs, descs)
+            if d:
+                res['viol'] = d
+        return res
+    return body
+
+
+def run_bitmap_encode(args):
+    structs, env = args
+    p = Partial()
+    st = tree.Stats()
+    for struct in structs:
+        def on_leaf(ctx, res, struct=struct):
+            p.n['exec'] += 1
+            if 'skip' in res:
+                p.n['envelope_skipped'] += 1
+                return
+            p.outcome(res['outcome'])
+            if 'viol' in res:
+                parts = struct[0].split('|')
+                p.violation('%s|bitmap|%s' % (res['viol'][0], '|'.join(x.split('.')[0] for x in parts[1:] if x)),
+                            {'struct': list(struct), 'env': env, 'choices': ctx.vector()}, res['viol'][1], observed=res.get('bytes'))
+        tree.explore(bitmap_encode_body(struct, env), 0, on_leaf, st)
+    p.n['nodes'] += st.nodes
+    p.n['edges'] += st.edges
+    return p
+
+
 def run_corpus(msgs):
     """decode with the implementation, re-encode, compare with R.build around the same data for uncompressed
     messages that R's writer reproduces; for all: R's reader must read the re-encoded bytes as the same values"""
@@ -177,6 +237,12 @@ def replay(part, case):
         m = scan(open(os.path.join(TESTS, case['file']), 'rb').read())[case['index']]
         p = run_corpus([(case['file'], case['index'], m)])
         return [{'sig': v['sig'], 'detail': v['detail']} for v in p.viol]
+    if part.startswith('bitmap'):
+        s_ = case['struct']
+        body = bitmap_encode_body((s_[0], s_[1], [[tuple(x) for x in q] for q in s_[2]], s_[3]), case['env'])
+        ctx, res = tree.replay(body, case['choices'])
+        return [{'sig': '%s|bitmap|%s' % (res['viol'][0], '|'.join(x.split('.')[0] for x in s_[0].split('|')[1:] if x)),
+                 'detail': res['viol'][1]}] if 'viol' in res else []
     raise ValueError(part)
 
 
@@ -199,6 +265,15 @@ def main(tier, seed):
         p = merge_all(run_shards(CC.run_tree, [(s, env, bound, 'encode') for s in shards]))
         rep.add_part(name, p, bounds=dict(pargs, templates=len(pool), deviations=bound,
                                           **{k2: (v.hex() if isinstance(v, bytes) else v) for k2, v in env.items()}))
+    from mc.gen import bitmaps as BM
+    L = 0 if tier == 'quick' else 1
+    for bname, structs, env in (('bitmap-u1', list(BM.chain1(L + 1)), dict(nsub=1, compressed=False)),
+                                ('bitmap-u2-diff', list(BM.chain1(L, 2)), dict(nsub=2, compressed=False, vmap=[0, 1])),
+                                ('bitmap-u3-diff', list(BM.chain1(0, 2)), dict(nsub=3, compressed=False, vmap=[1, 0, 1])),
+                                ('bitmap-c2', list(BM.chain1(L)), dict(nsub=2, compressed=True)),
+                                ('bitmap-chain2-u1', list(BM.chain2(L)), dict(nsub=1, compressed=False))):
+        p = merge_all(run_shards(run_bitmap_encode, [(s_, env) for s_ in split(structs, 64)]))
+        rep.add_part(bname, p, bounds=dict(structures=len(structs), **env))
     from mc.checks import opmodel
     p, info = opmodel.explore('encode', tier)
     rep.add_part('opmodel', p, bounds=info, rule='BFS to fixpoint over reference register states')
